@@ -77,14 +77,17 @@ def run_property(pid, tier, seed, jobs):
         total.transitions += res.transitions
         total.traces += res.traces
         total.capped = total.capped or res.capped
-        for s in res.samples:
-            total.sample(s, limit=4)
         total.violations.extend(res.violations)
         for k, v in res.extra.items():
             if isinstance(v, (int, float)):
                 total.extra[k] = total.extra.get(k, 0) + v
             else:
                 total.extra[k] = v
+    with_samples = [i for i in sorted(collected) if collected[i].samples]
+    if with_samples:
+        picks = sorted(set(with_samples[(len(with_samples) - 1) * j // 3] for j in range(4)))
+        for i in picks:
+            total.samples.append(collected[i].samples[-1])
     if hasattr(mod, 'finish'):
         mod.finish(total, plan, tier)
     wall = time.time() - t0
